@@ -208,22 +208,19 @@ func checkC13(c C13Case, o *h.Obs) *h.Fail {
 	mode := model.Mode(c.X.M)
 	o.Label(c.Kind + ":" + c.Verb)
 	if c.Kind == "badverb" {
-		// a format byte that is none of e E f g G p b, any precision: Text/Append answer as strconv.FormatFloat
-		// does for a byte it does not know ("%" followed by the byte; infinities are printed as such) - and in
-		// particular they answer (a panic is reported by the runner)
-		f := math.Float64frombits(c.Bits)
-		want := strconv.FormatFloat(f, c.Verb[0], c.Prec, 64)
-		if math.IsInf(f, 1) {
-			want = "+Inf"
-		}
+		// a format byte that is none of e E f g G p b, any precision: no property says what the text must be (the
+		// library answers "%" followed by the byte, as strconv does), but the call must answer - a panic is
+		// reported by the runner (C04: nothing but ErrNaN panics) - and Append must add exactly Text's bytes to
+		// whatever the buffer holds
+		want := x.Text(c.Verb[0], c.Prec)
 		for _, buf := range [][]byte{nil, {}, make([]byte, 0, 1), append(make([]byte, 0, 2), 'x', '='), append(make([]byte, 0, 64), 'x', '=')} {
 			prefix := string(buf)
 			if got := string(x.Append(buf, c.Verb[0], c.Prec)); got != prefix+want {
-				return h.Failf("badverb", "Append(%q (cap %d), %q, %d) of %v = %q, strconv.FormatFloat gives %q", prefix, cap(buf), c.Verb, c.Prec, xv, h.FirstN(got, 200), want)
+				return h.Failf("badverb", "Append(%q (cap %d), %q, %d) of %v = %q, Text gives %q", prefix, cap(buf), c.Verb, c.Prec, xv, h.FirstN(got, 200), h.FirstN(want, 200))
 			}
 		}
-		if got := x.Text(c.Verb[0], c.Prec); got != want {
-			return h.Failf("badverb", "Text(%q, %d) of %v = %q, strconv.FormatFloat gives %q", c.Verb, c.Prec, xv, h.FirstN(got, 200), want)
+		if sc := strconv.FormatFloat(math.Float64frombits(c.Bits), c.Verb[0], c.Prec, 64); sc == want {
+			o.Label("badverb:same-as-strconv")
 		}
 		return nil
 	}
@@ -353,7 +350,7 @@ func checkC13(c C13Case, o *h.Obs) *h.Fail {
 	return nil
 }
 
-const ruleC13 = "rapid-generated (value, verb/format, precision -1..40 or near the value's digit count / leading-digit position, flags from {+, space, 0, -}, width 0..40). Append onto prefixes that look like parts of a number ('v1.0: ', '-0.5e+07 ', '9.', 'Inf') must equal prefix + Text, also into buffers whose spare capacity is the output length -1..+2 or 19 bytes per mantissa word +0..+4. Two oracles. (f64) the value is the exact decimal expansion (<= 767 digits) of a float64 (uniform bits, subnormals, extremes, decimal-looking values n/10^k, dyadic fractions, +-0, +-Inf), mode ToNearestEven: Text(c,p) == strconv.FormatFloat(f,c,p,64) for p >= 0 and fmt.Sprintf(spec, x) == fmt.Sprintf(spec, f). (ref) any Decimal incl. dirty zeros/infinities and 1-12 digit values with tie/all-nines patterns at exponents -45..25 (a quarter of them held in zero-padded mantissas of 3..40 words), under its own rounding mode: Text == reference formatter (round once with the reference rounding at the requested position, which may lie at or above the leading digit, then strconv's e/f/g layout rules; p and b per the Text documentation), and Format == fmt's sign/width/flag rules applied to that body (the emulation is itself cross-checked against fmt on every f64 case). In one case in eight with a width the width is chosen from the formatted length so that the padding is exactly 31..33, 63..65, 127..129, 255..257, 384, 512, 1000, 1024, 2048, 4095..4097, 8191..8193, 8200, 16384, 65537 or 300000 bytes. '-' together with '0' is checked like every other combination ('-' wins, as in fmt). One case in forty gives Text/Append a format byte outside e E f g G p b (with precisions from MinInt32 to 400, buffers of capacity 0, 1, 2 and 64): the answer must be strconv.FormatFloat's for an unknown byte. Excluded by construction and counted: '+'/' ' with %v in the fmt differential (fmt's plusV), 'f' with |exp| > 5000. Non-trivial = the value has more digits than requested, or the rounding position is at/above the leading digit, or flags/width are non-default."
+const ruleC13 = "rapid-generated (value, verb/format, precision -1..40 or near the value's digit count / leading-digit position, flags from {+, space, 0, -}, width 0..40). Append onto prefixes that look like parts of a number ('v1.0: ', '-0.5e+07 ', '9.', 'Inf') must equal prefix + Text, also into buffers whose spare capacity is the output length -1..+2 or 19 bytes per mantissa word +0..+4. Two oracles. (f64) the value is the exact decimal expansion (<= 767 digits) of a float64 (uniform bits, subnormals, extremes, decimal-looking values n/10^k, dyadic fractions, +-0, +-Inf), mode ToNearestEven: Text(c,p) == strconv.FormatFloat(f,c,p,64) for p >= 0 and fmt.Sprintf(spec, x) == fmt.Sprintf(spec, f). (ref) any Decimal incl. dirty zeros/infinities and 1-12 digit values with tie/all-nines patterns at exponents -45..25 (a quarter of them held in zero-padded mantissas of 3..40 words), under its own rounding mode: Text == reference formatter (round once with the reference rounding at the requested position, which may lie at or above the leading digit, then strconv's e/f/g layout rules; p and b per the Text documentation), and Format == fmt's sign/width/flag rules applied to that body (the emulation is itself cross-checked against fmt on every f64 case). In one case in eight with a width the width is chosen from the formatted length so that the padding is exactly 31..33, 63..65, 127..129, 255..257, 384, 512, 1000, 1024, 2048, 4095..4097, 8191..8193, 8200, 16384, 65537 or 300000 bytes. '-' together with '0' is checked like every other combination ('-' wins, as in fmt). One case in forty gives Text/Append a format byte outside e E f g G p b (with precisions from MinInt32 to 400, buffers of capacity 0, 1, 2 and 64): the call must return (no panic) and Append must equal prefix + Text; whether the text equals strconv.FormatFloat's answer for an unknown byte is counted, not demanded. Excluded by construction and counted: '+'/' ' with %v in the fmt differential (fmt's plusV), 'f' with |exp| > 5000. Non-trivial = the value has more digits than requested, or the rounding position is at/above the leading digit, or flags/width are non-default."
 
 // carryPastMaxExp: rounding x at the requested position carries into a power of
 // ten whose exponent is MaxExp+1, which the temporary Decimal used by Append
